@@ -5,13 +5,13 @@ import (
 	"errors"
 	"io"
 	"net/http"
+	"sync"
 
 	"github.com/buildbuildio/pebbles/requests"
 )
 
 // C11 harness: (*MultiOpQueryer).Query -> AsyncMapReduce -> queryBatch -> fetch -> sendRequest,
 // against a transport (verifDo) that records what every HTTP call carries and may fail a call.
-
 
 type vBody struct{ data []byte }
 
@@ -23,7 +23,7 @@ func (b *vBody) Read(p []byte) (int, error) {
 	b.data = b.data[n:]
 	return n, nil
 }
-func (b *vBody) Close() error               { return nil }
+func (b *vBody) Close() error { return nil }
 
 var vTags = []string{"q0", "q1", "q2", "q3", "q4", "q5", "q6", "q7", "q8", "q9", "q10", "q11", "q12"}
 
@@ -58,7 +58,7 @@ func verifDo(req *http.Request) (*http.Response, error) {
 	first := vIndex(tags[0])
 	verifAssert(vCalls[first] == nil, "a request is sent in one HTTP call only")
 	vCalls[first] = tags
-	if verifBool("failcall_" + vTags[first]) {
+	if !vNoFail && verifBool("failcall_"+vTags[first]) {
 		vFailedAt[first] = true
 		return nil, errors.New("transport error")
 	}
@@ -74,8 +74,23 @@ func verifDo(req *http.Request) (*http.Response, error) {
 	return &http.Response{StatusCode: 200, Body: &vBody{b}}, nil
 }
 
-
 var vEmptyErrs bool
+var vNoFail bool // the transport is healthy from here on
+
+// verifNewCancel backs context.WithCancel (engine model): a done channel and its cancel function
+func verifNewCancel() (chan struct{}, func()) {
+	ch := make(chan struct{})
+	done := false
+	var mu sync.Mutex // cancel functions may be called from any goroutine
+	return ch, func() {
+		mu.Lock()
+		if !done {
+			done = true
+			close(ch)
+		}
+		mu.Unlock()
+	}
+}
 
 func VerifQuery() {
 	vEmptyErrs = verifBool("emptyerrors") // every healthy answer of this run carries "errors": [] or none does
@@ -124,6 +139,17 @@ func VerifQuery() {
 	}
 	if N == 0 {
 		verifReach("empty input")
+	}
+	// the queryer is not used up by a call: the next call on the same queryer (the executor makes one
+	// per level) is served like the first
+	if N >= 1 {
+		vNoFail = true
+		for i := range vCalls {
+			vCalls[i] = nil
+		}
+		res2, err2 := q.Query([]*requests.Request{{Query: vTags[len(vTags)-1]}})
+		verifAssert(err2 == nil && len(res2) == 1 && res2[0] != nil && res2[0]["tag"] == vTags[len(vTags)-1], "the next call on the same queryer is served as well")
+		verifReach("second call")
 	}
 }
 
